@@ -54,6 +54,7 @@ class Module(object):
         self.all_names = None
         self.is_pkg = path.endswith("__init__.py")
         strip_noise(self.tree)
+        self.turned_comparisons = canonical_comparisons(self.tree)
         self.renamed_locals = normalise_locals(self.tree, rel)
         self._collect(self.tree.body)
         self._pin_map()
@@ -693,6 +694,36 @@ def _is_noise(s, first):
     if isinstance(s, ast.Expr) and isinstance(s.value, ast.Call) and dotted(s.value.func) in NOISE_CALLS:
         return True
     return False
+
+
+def _constant_like(e):
+    """literals (incl. negative numbers) and enumeration members / CONSTANT names"""
+    if isinstance(e, ast.Constant):
+        return True
+    if isinstance(e, ast.UnaryOp) and isinstance(e.op, ast.USub) and isinstance(e.operand, ast.Constant):
+        return True
+    if isinstance(e, ast.Attribute) and isinstance(e.value, ast.Name) and e.value.id[:1].isupper() and not e.value.id.isupper():
+        return True  # Profiles.low_delay
+    if isinstance(e, ast.Name) and e.id.isupper() and len(e.id) > 1:
+        return True  # AUTO, WILDCARD
+    return False
+
+
+_FLIP = {ast.Lt: ast.Gt, ast.Gt: ast.Lt, ast.LtE: ast.GtE, ast.GtE: ast.LtE, ast.Eq: ast.Eq, ast.NotEq: ast.NotEq}
+
+
+def canonical_comparisons(tree):
+    """single-operator comparisons written constant-first (`0 == x`, `Profiles.hq == p`, `2 > n`) are turned round
+    (`x == 0`, `p == Profiles.hq`, `n < 2`), so that rules see one spelling of a test; returns the number turned"""
+    n = 0
+    for c in ast.walk(tree):
+        if isinstance(c, ast.Compare) and len(c.ops) == 1 and type(c.ops[0]) in _FLIP:
+            l, r = c.left, c.comparators[0]
+            if _constant_like(l) and not _constant_like(r):
+                c.left, c.comparators[0] = r, l
+                c.ops[0] = _FLIP[type(c.ops[0])]()
+                n += 1
+    return n
 
 
 def strip_noise(tree):
